@@ -540,9 +540,7 @@ func (in *Interp) ensureBuilt(pkg *ssa.Package) {
 	if pkg == nil {
 		return
 	}
-	in.sh.buildMu.Lock()
-	pkg.Build()
-	in.sh.buildMu.Unlock()
+	pkg.Build() // sync.Once inside: concurrent callers wait for the build to finish
 }
 
 func (in *Interp) ensureInit(pkg *ssa.Package) {
@@ -632,12 +630,13 @@ func (in *Interp) newFrame(caller *frame, fn *ssa.Function) *frame {
 }
 
 func (in *Interp) callSSA(caller *frame, fn *ssa.Function, args []Value, env []Value) Value {
-	if fn.Blocks == nil {
-		if fn.Pkg != nil {
-			in.ensureBuilt(fn.Pkg)
-		} else if o := fn.Origin(); o != nil && o.Pkg != nil {
-			in.ensureBuilt(o.Pkg)
-		}
+	// always synchronise with a build that may be in progress on another worker
+	if fn.Pkg != nil {
+		in.ensureBuilt(fn.Pkg)
+	} else if o := fn.Origin(); o != nil && o.Pkg != nil {
+		in.ensureBuilt(o.Pkg)
+	} else if p := fn.Parent(); p != nil && p.Pkg != nil {
+		in.ensureBuilt(p.Pkg)
 	}
 	if fn.Blocks == nil {
 		if in.initMode > 0 {
